@@ -3,7 +3,9 @@ package props
 import (
 	"encoding/json"
 	"fmt"
+	"github.com/ExocoreNetwork/exocore/utils"
 	"github.com/cosmos/cosmos-sdk/codec"
+	banktypes "github.com/cosmos/cosmos-sdk/x/bank/types"
 	"math/big"
 	"time"
 
@@ -336,6 +338,16 @@ func (m *Machine) Apply(a *Action) (Outcome, error) {
 			note = err.Error()
 		}
 		return Outcome{OK: err == nil, Included: true, Note: note}, nil
+	case "payFee":
+		// an ordinary transaction whose only purpose is its fee (fee income for the collector)
+		to := m.ActorKey(a.Actor)
+		msg := banktypes.NewMsgSend(to.Acc(), to.Acc(), sdk.NewCoins(sdk.NewCoin(utils.BaseDenom, sdkmath.NewInt(1))))
+		bz, err := c.BuildCosmosTx(to, 300_000, sdkmath.NewIntFromBigInt(amt(a.Amount)), msg)
+		if err != nil {
+			return Outcome{}, err
+		}
+		res := c.DeliverTx(bz)
+		return Outcome{OK: res.Code == 0, Included: res.Code == 0, Note: res.Log}, nil
 	case "optIn":
 		msg := &operatortypes.OptIntoAVSReq{FromAddress: m.W.Operators[a.Op].Bech32(), AvsAddress: m.W.AvsAddr, PublicKeyJSON: m.Keys[a.Key].Wrapped.ToJSON()}
 		return m.cosmos(m.W.Operators[a.Op], msg)
